@@ -77,13 +77,15 @@ def run(ctx, chk):
                 same_chain = swapped == a1 and a0 != a1
                 # reversed traversal: an Iterator::rev adaptor (or the crate's rev_iter) outermost, over all bits / symbols of the operand
                 def reversed_all(t):
-                    if an.is_call(t, re.compile(r" as std::iter::Iterator>::rev$")):
-                        inner = t[2][0]
-                        s = show(inner)
-                        return "bits(arg1)" in s or "arg1" in s
-                    if an.is_call(t, re.compile(r"^seq::slice::SeqSlice::<A>::rev_iter$")):
-                        return True
-                    return False
+                    # the elements compared must be the single bits of the whole content, last bit first: rev(by_vals(iter(bits)))
+                    # or rev(iter(bits)).  A traversal by symbol is not accepted as such: its elements would have to be compared
+                    # as integers (a window of bits, or a decoded symbol, orders differently), which no row establishes.
+                    if not an.is_call(t, re.compile(r" as std::iter::Iterator>::rev$")) or len(t[2]) != 1:
+                        return False
+                    inner = t[2][0]
+                    if an.is_call(inner, re.compile(r"^bitvec::slice::Iter::<.*>::by_vals$")) and len(inner[2]) == 1:
+                        inner = inner[2][0]
+                    return an.is_call(inner, re.compile(r"^bitvec::slice::api::<impl bitvec::slice::BitSlice>::iter$"), (("bits", P(1)),))
                 ok = same_chain and reversed_all(a0)
             else:
                 why = "; ".join(p.describe()[:200] for p in r)
